@@ -114,6 +114,16 @@ def random_cut_case(rng, max_heavy, kinds=('$', '><'), max_parts=6, mol_kw=None,
     if case is None:
         return None
     ast, pre = M.base_to_ast(rng, case['base'])
+    # charges annotated on base-graph nodes are properties of the coarse node; the atoms underneath keep what the fragment
+    # says (own generator, seeded by the fragment texts, so that the main stream of cases is unchanged)
+    import random as _r
+    qrng = _r.Random('q' + str(sorted(case['frags'].items())))
+    charged_nodes = False
+    if qrng.random() < 0.15:
+        for e_, _, _, _ in G._flat(ast):
+            if qrng.random() < 0.4:
+                e_['annot'] = qrng.choice(['q=1', 'q=-1', '1', 'q=2', '-1;0.5'])
+                charged_nodes = True
     truth = M.truth_graph(g)
     atom_annotations = {}
     if rng.random() < 0.15:
@@ -158,6 +168,8 @@ def random_cut_case(rng, max_heavy, kinds=('$', '><'), max_parts=6, mol_kw=None,
         feats.add('diverse_fragment_names')
     if decoy:
         feats.add('second_definition_of_a_defined_name')
+    if charged_nodes:
+        feats.add('charged_base_graph_nodes')
     out = dict(kind='cut', base_ast=ast, base_string=G.to_string(ast),
                 frag_string='{' + ','.join('#%s=%s' % kv for kv in items + ([decoy] if decoy else [])) + '}',
                 base_graph={'nodes': [[n, case['base'].nodes[n]['fragname']] for n in base_nodes],
@@ -797,6 +809,13 @@ def random_coarse_cut_case(rng, n):
     ion_names = rng.random() < 0.25
     g = M.gen_coarse_graph(rng, n, names=M.CG_NAMES + ION_STYLE_NAMES * 2) if ion_names else M.gen_coarse_graph(rng, n)
     ion_names = ion_names and any(d['name'] in ION_STYLE_NAMES for _, d in g.nodes(data=True))
+    weighted = rng.random() < 0.3
+    if weighted:
+        # weights written on beads of the coarse fragments (positional or by keyword, optionally with a free key)
+        for x in g.nodes:
+            if rng.random() < 0.4:
+                txt, val = rng.choice([('0.5', 0.5), ('w=0.25', 0.25), ('2', 2.0), ('w=0', 0.0), ('note=a;w=1e-1', 0.1), ('0.75;tag=q', 0.75)])
+                g.nodes[x]['annot'], g.nodes[x]['weight'] = txt, val
     nparts = rng.randint(1, min(n, 5))
     part = M.partition(rng, g, k=nparts)
     labels = M.label_pool(rng)
@@ -838,18 +857,18 @@ def random_coarse_cut_case(rng, n):
                 frag_string='{' + ','.join('#%s=%s' % kv for kv in items) + '}',
                 base_graph={'nodes': [[x, base.nodes[x]['fragname']] for x in nodes],
                             'edges': [[a, b, d['order']] for a, b, d in base.edges(data=True)]},
-                ctor='string', coarse=True,
-                truth={'nodes': [[x, d['name']] for x, d in g.nodes(data=True)],
+                ctor=rng.choice(['string', 'string', 'from_graph', 'from_fragment_dicts']), coarse=True,
+                truth={'nodes': [[x, d['name'], d.get('weight', 1.0)] for x, d in g.nodes(data=True)],
                        'edges': [[a, b, d['order']] for a, b, d in g.edges(data=True)]},
-                features=sorted({'coarse_last'} | ({'base_order_ge2'} if any(v >= 2 for v in cutcount.values()) else set())
+                features=sorted({'coarse_last'} | ({'weights_on_beads_of_coarse_fragments'} if weighted else set()) | ({'base_order_ge2'} if any(v >= 2 for v in cutcount.values()) else set())
                                 | ({'ion_style_bead_names'} if ion_names else set()) | ({'one_bead_carries_the_same_descriptor_twice'} if shared_label else set())),
                 nheavy=n, nfrag=nparts, ncuts=sum(cutcount.values()))
 
 
 def coarse_truth(j):
     t = nx.Graph()
-    for n, name in j['nodes']:
-        t.add_node(n, name=name)
+    for ent in j['nodes']:
+        t.add_node(ent[0], name=(ent[1], float(ent[2]) if len(ent) > 2 else 1.0))
     for a, b, o in j['edges']:
         t.add_edge(a, b, order=o)
     return t
@@ -858,7 +877,7 @@ def coarse_truth(j):
 def coarse_result_matches(aa, truth):
     r = nx.Graph()
     for n, d in aa.nodes(data=True):
-        r.add_node(n, name=d.get('atomname'))
+        r.add_node(n, name=(d.get('atomname'), float(d.get('weight', 1.0)) if isinstance(d.get('weight', 1.0), (int, float)) else d.get('weight')))
     for a, b, d in aa.edges(data=True):
         r.add_edge(a, b, order=d.get('order'))
     if len(r) != len(truth) or r.number_of_edges() != truth.number_of_edges():
